@@ -201,9 +201,9 @@ func init() {
 // PLP: a provider (IA, IAB) that is also a pass-through component post-processor AND LazyInit: three roles at once.
 type PLP struct{ QCore }
 
-func (*PLP) isA()      {}
-func (*PLP) isAB()     {}
-func (*PLP) LazyInit() {}
+func (*PLP) isA()                                                         {}
+func (*PLP) isAB()                                                        {}
+func (*PLP) LazyInit()                                                    {}
 func (*PLP) PostProcessBeforeInitialization(c any, n string) (any, error) { return c, nil }
 func (*PLP) PostProcessAfterInitialization(c any, n string) (any, error)  { return c, nil }
 
